@@ -71,11 +71,13 @@ pub struct Spec {
     /// first because lexgen requires it). Empty = natural order.
     pub decl_order: Vec<usize>,
     pub family: &'static str,
+    /// Names of the rule sets (empty = `Init`, `R1`, `R2`, …).
+    pub set_names: Vec<String>,
 }
 
 impl Spec {
     pub fn single(rules: Vec<Rule>, family: &'static str) -> Spec {
-        Spec { lets: vec![], sets: vec![RuleSet { lets: vec![], rules }], named: false, decl_order: vec![], family }
+        Spec { lets: vec![], sets: vec![RuleSet { lets: vec![], rules }], named: false, decl_order: vec![], family, set_names: vec![] }
     }
     pub fn multi(sets: Vec<Vec<Rule>>, family: &'static str) -> Spec {
         Spec {
@@ -84,6 +86,7 @@ impl Spec {
             named: true,
             decl_order: vec![],
             family,
+            set_names: vec![],
         }
     }
     pub fn is_named(&self) -> bool {
@@ -139,6 +142,9 @@ impl Spec {
         env
     }
     pub fn set_name(&self, si: usize) -> String {
+        if let Some(n) = self.set_names.get(si) {
+            return n.clone();
+        }
         if si == 0 {
             "Init".into()
         } else {
